@@ -17,13 +17,14 @@ from vf.props import c01
 LEVEL = "exploration"
 RULE = ("the shipped (before, after) fixture corpus with its hardware, per-vendor cross products (before_i/after_i x before_j/after_j), and random "
         "recombinations of corpus trees of one vendor (rows dropped, sub-trees swapped between samples, children thinned) for every stub hardware and the hardware "
-        "families the rule templates branch on. Non-trivial: both patches non-empty. Distinct: hash of (model, old, new).")
+        "families the rule templates branch on; many-port Cisco/Nexus trunk configurations whose VLAN list strings recur under several keys, each pair asked twice in one process; "
+        "the text of file_diff_worker against the device diff's entries written out by the monitor. Non-trivial: both patches non-empty. Distinct: hash of (model, old, new).")
 ASSUMPTIONS = [
     "no ACL, implicit defaults off, add_comments off",
     "if both front ends raise the same exception type for an input they are counted as agreeing (exceptions_agreed)",
 ]
-FLOORS = {"quick": {"pairs_compared": 500, "nonempty_patches": 300, "file_workers_compared": 150, "file_workers_concrete_model": 80, "equal_config_pairs": 300, "device_workers_compared": 150, "device_workers_safe_differs_from_full": 40},
-          "thorough": {"pairs_compared": 20000, "nonempty_patches": 12000, "file_workers_compared": 150, "file_workers_concrete_model": 80, "equal_config_pairs": 300, "device_workers_compared": 150, "device_workers_safe_differs_from_full": 40}}
+FLOORS = {"quick": {"pairs_compared": 500, "nonempty_patches": 300, "file_workers_compared": 150, "file_workers_concrete_model": 80, "equal_config_pairs": 300, "device_workers_compared": 150, "device_workers_safe_differs_from_full": 40, "file_diff_lines_checked": 1500, "file_diff_moved_lines_checked": 60, "vlan_list_pairs": 300},
+          "thorough": {"pairs_compared": 20000, "nonempty_patches": 12000, "file_workers_compared": 150, "file_workers_concrete_model": 80, "equal_config_pairs": 300, "device_workers_compared": 150, "device_workers_safe_differs_from_full": 40, "file_diff_lines_checked": 1500, "file_diff_moved_lines_checked": 60, "vlan_list_pairs": 6000}}
 EXTRA_MODELS = {"huawei": ["Huawei CE6870", "Huawei NE40E-X8", "Huawei Quidway S5300"], "huawei ce": ["Huawei"], "cisco": ["Cisco Catalyst 2960"],
                 "nexus": ["Cisco Nexus 3432"], "asr": ["Cisco XRv"], "iosxr": ["Cisco ASR 9010"]}
 
@@ -33,6 +34,7 @@ def plan(tier, seed):
     specs = [{"mode": "pairs", "tier": tier, "seed": seed, "shard": k, "nshards": n} for k in range(n)]
     specs.append({"mode": "files", "tier": tier, "seed": seed})
     specs.append({"mode": "workers", "tier": tier, "seed": seed})
+    specs.append({"mode": "vlans", "tier": tier, "seed": seed})
     return specs
 
 
@@ -56,6 +58,17 @@ def both(hw, old, new):
     except Exception as e:
         res["device"] = ("EXC", type(e).__name__, str(e)[:200])
     return res
+
+
+def own_diff_lines(diff, level=0, indent="  "):
+    sign = {"added": "+", "removed": "-", "affected": " ", "moved": ">"}
+    out = []
+    for op, row, ch, _ in diff:
+        name = getattr(op, "name", str(op))
+        if name in sign:
+            out.append(("%s%s %s" % (sign[name], indent * level, row)).rstrip())
+            out += own_diff_lines(ch, level + 1, indent)
+    return out
 
 
 def mech_key(res, hw):
@@ -174,6 +187,51 @@ def run_pairs(spec, acc):
     acc.sample({"corpus_samples": len(cps), "vendors": vks})
 
 
+VLAN_MODELS = [("Cisco Catalyst 2960", "interface GigabitEthernet0/%d"), ("Cisco Nexus 9316", "interface Ethernet1/%d"), ("Cisco Nexus 3432", "interface Ethernet1/%d")]
+
+
+def gen_vlan_side(rng, pool, nports, ifmt):
+    """several trunk ports and VLAN groups whose list lines are drawn from one small pool of list strings, so the same text recurs under several keys"""
+    t = odict()
+    for g in range(rng.randint(0, 2)):
+        t["vlan group G%d vlan-list %s" % (g, rng.choice(pool))] = odict()
+    for p_ in range(nports):
+        if rng.random() < 0.15:
+            continue
+        ch = odict()
+        if rng.random() < 0.8:
+            ch["switchport mode trunk"] = odict()
+        lists = rng.sample(pool, rng.randint(0, min(3, len(pool))))
+        for i_, ls in enumerate(lists):
+            ch["switchport trunk allowed vlan %s%s" % ("add " if i_ else "", ls)] = odict()
+        if rng.random() < 0.3:
+            ch["description p%d" % rng.randint(1, 3)] = odict()
+        t[ifmt % p_] = ch
+    return t
+
+
+def run_vlans(spec, acc):
+    """both front ends, one after the other in one process, on many-port configurations sharing VLAN list strings; each pair twice"""
+    from annet.annlib.netdev.views.hardware import HardwareView
+    rng = random.Random("C16/vlans/%s" % spec["seed"])
+    for j in range(300 if spec["tier"] == "quick" else 6000):
+        model, ifmt = rng.choice(VLAN_MODELS)
+        pool = []
+        for _ in range(rng.randint(2, 4)):
+            base = sorted(rng.sample([10, 11, 12, 20, 30, 31, 40], rng.randint(1, 4)))
+            from vf.props import c11
+            pool.append(c11.fmt_ranges(base, "cisco"))
+        pool = sorted(set(pool))
+        nports = rng.randint(2, 4)
+        old = gen_vlan_side(rng, pool, nports, ifmt)
+        new = gen_vlan_side(rng, pool, nports, ifmt)
+        hw = HardwareView(model, "")
+        w = {"vlans": True, "model": model, "old": plain(old), "new": plain(new)}
+        acc.count("vlan_list_pairs")
+        compare(hw, old, new, acc, w)
+        compare(hw, old, new, acc, w)  # asked again: earlier computations in the process must not change the answer
+
+
 def run_files(spec, acc):
     """the CLI workers on real files vs the device path"""
     from vf import corpus
@@ -245,6 +303,14 @@ def run_files(spec, acc):
                 continue
             exp_diff = "".join(gen_pre_as_diff(make_pre(ddiff), False, "  ", True))
             got_diff = fd[0][1] if fd else ""
+            # the entries of the device front end's diff, written out by the monitor itself (one line per added / removed / affected / moved row)
+            own = own_diff_lines(ddiff)
+            acc.count("file_diff_lines_checked", len(own))
+            acc.count("file_diff_moved_lines_checked", sum(1 for x in own if x.startswith(">")))
+            if sorted(x.rstrip() for x in got_diff.split("\n") if x.strip()) != sorted(own):
+                acc.violation("C16/file-diff-text-differs-from-device-diff", "the text file_diff_worker prints does not hold exactly the entries (added, removed, affected, moved rows) of the device front end's diff",
+                              dict(w, file_diff=got_diff.split("\n")[:40], device_diff_entries=own[:40]))
+                continue
             if sorted(got_diff.split("\n")) != sorted(exp_diff.split("\n")):
                 acc.violation("C16/diff-differs", "file_diff_worker prints different diff lines than the device front end's diff",
                               dict(w, file_diff=got_diff.split("\n")[:30], device_diff=exp_diff.split("\n")[:30]))
@@ -328,6 +394,8 @@ def run_workers(spec, acc):
 def run_shard(spec, acc):
     if spec["mode"] == "workers":
         return run_workers(spec, acc)
+    if spec["mode"] == "vlans":
+        return run_vlans(spec, acc)
     if spec["mode"] == "replay" and spec["witness"].get("workers"):
         return run_workers({"tier": "quick", "seed": 0}, acc)
     if spec["mode"] == "replay":
